@@ -35,6 +35,7 @@ declare -A MAP=(
  ["pads every call site and leaves shared padding"]="C08"
  ["two features concatenations that are summed"]="C09"
  ["whatever way the axis is spelled"]="C09"
+ ["fold the dilation into the weights of grouped"]="C14"
 )
 fail=0
 git -C /repo log --format='%h %s' bfd6014..HEAD | grep ' fix:' | while read h msg; do
